@@ -187,6 +187,7 @@ type c08Case struct {
 	Missing bool   `json:"missing"`
 	Call    int    `json:"call,omitempty"` // replay: only this call
 	Seed    int64  `json:"seed,omitempty"`
+	Dynamic bool   `json:"dynamic,omitempty"` // the method table changes during the case; Call = number of steps
 }
 
 func c08Run(t *tr.Writer, id int, c c08Case) {
@@ -353,6 +354,82 @@ func c08Run(t *tr.Writer, id int, c c08Case) {
 	})
 }
 
+// c08Dynamic: the method table changes while the service runs. A seeded history of publish / remove
+// operations (functions, a namespaced method set, the missing-method handler; names that differ only in
+// case) interleaved with calls spelled in varying case; every function says who it is.
+func c08Dynamic(t *tr.Writer, id int, c c08Case) {
+	Watch(id, tr.Rec{"kind": c.Kind}, c)
+	r := &c08Rec{t: t}
+	svc := core.NewService()
+	env, err := rpcenv.Start(c.Kind, svc, false)
+	if err != nil {
+		t.Reset(id*1000, tr.Rec{"kind": c.Kind, "pool": false, "simple": false, "table": map[string]string{}, "missing": false, "input": c})
+		t.Emit(tr.Rec{"ev": "setup-failed", "err": err.Error()})
+		return
+	}
+	defer env.Close()
+	client := core.NewClient(env.URL)
+	defer client.Abort()
+	rng := tr.NewRng(c.Seed)
+	// the built-in "~" (list of names) is part of every table
+	t.Reset(id*1000, tr.Rec{"kind": c.Kind, "pool": false, "simple": false, "table": map[string]string{"~": "~"}, "missing": false, "dynamic": true, "input": c})
+	mk := func(fn string) func(x string) string {
+		return func(x string) string {
+			r.invoked(fn, x)
+			r.values(fn, fn+":"+x)
+			return fn + ":" + x
+		}
+	}
+	names := []string{"alpha", "Alpha", "ALPHA", "beta", "ns_Gamma", "ns_gamma", "δelta", "Δelta"}
+	nfn := 0
+	for step := 0; step < c.Call; step++ {
+		switch k := rng.Intn(10); {
+		case k < 3:
+			name := names[rng.Intn(len(names))]
+			nfn++
+			fn := fmt.Sprintf("fn%d", nfn)
+			svc.AddFunction(mk(fn), name)
+			t.Emit(tr.Rec{"ev": "publish", "lname": strings.ToLower(name), "fn": fn})
+		case k < 4:
+			name := names[rng.Intn(len(names))]
+			svc.Remove(name)
+			t.Emit(tr.Rec{"ev": "unpublish", "lname": strings.ToLower(name)})
+		case k < 5:
+			if rng.Intn(2) == 0 {
+				svc.AddMissingMethod(func(name string, args []interface{}) ([]interface{}, error) {
+					r.invoked("*", name, args)
+					r.values("*", "missing:"+name)
+					return []interface{}{"missing:" + name}, nil
+				})
+				t.Emit(tr.Rec{"ev": "publish", "lname": "*", "fn": "*"})
+			} else {
+				svc.Remove("*")
+				t.Emit(tr.Rec{"ev": "unpublish", "lname": "*"})
+			}
+		default:
+			name := names[rng.Intn(len(names))]
+			switch rng.Intn(3) {
+			case 0:
+				name = strings.ToUpper(name)
+			case 1:
+				name = strings.ToLower(name)
+			}
+			arg := fmt.Sprintf("x%d", step)
+			args := []interface{}{arg}
+			t.Emit(tr.Rec{"ev": "call", "name": name, "lname": strings.ToLower(name), "args": fmtx.Abs(args), "margs": fmtx.Abs([]interface{}{name, args})})
+			res, err := client.Invoke(name, args)
+			if err != nil {
+				t.Emit(tr.Rec{"ev": "ret", "kind": "error", "msg": err.Error(), "vals": fmtx.Abs([]interface{}{}), "raw": true})
+			} else {
+				if res == nil {
+					res = []interface{}{}
+				}
+				t.Emit(tr.Rec{"ev": "ret", "kind": "values", "msg": "", "vals": fmtx.Abs(res), "raw": true})
+			}
+		}
+	}
+}
+
 func runC08(a Args) tr.Summary {
 	t := tr.New(a.Out)
 	defer t.Close()
@@ -385,7 +462,20 @@ func runC08(a Args) tr.Summary {
 			}
 		}
 	}
+	if a.Only == "" {
+		n := 6
+		if a.Tier == "thorough" {
+			n = 40
+		}
+		for i := 0; i < n; i++ {
+			c08Dynamic(t, 900+i, c08Case{Kind: []string{"mock", "tcp"}[i%2], Dynamic: true, Call: 60, Seed: a.Seed*31 + int64(i)})
+		}
+	}
 	for i, c := range cases {
+		if c.Dynamic {
+			c08Dynamic(t, i+1, c)
+			continue
+		}
 		c08Run(t, i+1, c)
 		if len(sum.Samples) < 4 {
 			sum.Samples = append(sum.Samples, c)
